@@ -17,6 +17,7 @@ PROPS = {
     'C05': {'units': ['chal'], 'kani': [], 'exclude': r'canonical_width'},
     'C12': {'units': ['bits', 'chal'], 'kani': [], 'only': {'chal': r'canonical_width'}},
     'C15': {'units': ['shape'], 'kani': []},
+    'C16': {'units': ['meta'], 'kani': []},
     'C11': {'units': ['air', 'run19'], 'kani': [], 'only': {'run19': r'execute_alu_op'}},
 }
 
@@ -111,8 +112,18 @@ META['C11'] = {
             'Poseidon AIRs are NOT under contract. Ring elements are integers: identities over Z transfer to every commutative ring (trusted). Type erasure of AB::Var/AB::Expr to one ring type.',
 }
 
+META['C16'] = {
+    'technique': 'Verus contracts on extracted real metadata validators and builder methods',
+    'text': 'Deductive proof that the metadata validators accept exactly the well-formed metadata (TablePacking::validate and RowCounts::validate return Ok if and only if every lane count is '
+            'positive, the minimum trace height is a power of two, the Horner packing is >= 2, every row count is positive), that the builder methods only produce well-formed metadata, and that '
+            'the metadata prefix of verify_all_tables continues only if the proof-declared extension degree, binomial parameter and quintic flag EQUAL the verifier-derived ones, and hands the '
+            'verifier-derived parameter (not the proof\'s) to the rest of verification.',
+    'note': 'KERNEL: validators + metadata prefix. NOT decided: that the remaining self-declared fields (rows, packing, table list) cannot help a prover — that rests on the preprocessed-commitment '
+            'binding (C04, cryptographic); serde round-trip (derive macros) is outside any contract here. BatchStarkProof::validate is a callee contract (conjunction of the validators).',
+}
+
 NOT_APPLICABLE = {
     'C01': 'whole-verifier equivalence with the external native verifier (p3-uni-stark / p3-batch-stark): needs a relational spec of ~1.5 kLoC of dependency code across four generic traits; no per-function contract within reach expresses it. Its parts are decided under C05/C07/C08/C13/C14/C15/C20.',
 }
-for _p in ['C04', 'C06', 'C07', 'C08', 'C09', 'C10', 'C13', 'C14', 'C16', 'C17', 'C18']:
+for _p in ['C04', 'C06', 'C07', 'C08', 'C09', 'C10', 'C13', 'C14', 'C17', 'C18']:
     NOT_APPLICABLE.setdefault(_p, 'not reached yet: kernel designed in DESIGN.md §5 but its contracts are not built; not claimed')
